@@ -281,7 +281,7 @@ pub fn dispatch(args: &Args) -> i32 {
         }
         "C03" => {
             let pls = ["flat", "deep", "flat>deep", "flat>deep>flat", "deep>flat", "deep>flat>deep", "flat>deep>flat>deep", "deep>flat>deep>flat", "flat_wo>deep", "flat_wo>deep>flat", "deep_relaxed"];
-            let mut parts = vec![part_trees(args, &pls, false), part_trees(args, &["flat", "deep", "flat>deep>flat", "deep>flat"], true), part_chains(args, &["flat>deep", "deep>flat", "flat>deep>flat"]), part_random(args, &pls),
+            let mut parts = vec![part_trees(args, &pls, false), part_trees(args, &["flat", "deep", "flat>deep>flat", "deep>flat"], true), part_chains(args, &["flat", "deep", "flat>deep", "deep>flat", "flat>deep>flat"]), part_random(args, &pls),
                 part_chains_exh(args, &["flat", "deep", "flat>deep", "deep>flat", "flat>deep>flat"], false), part_chains_exh(args, &["flat", "deep", "flat>deep", "deep>flat"], true)];
             parts.push(crate::extra::part_raw_differential(args, "C03"));
             let listing = crate::extra::listings_check(args);
